@@ -163,7 +163,7 @@ class SkBaseTransformLearner(SkBaseTransform):
         elif not hasattr(self, "model") or self.model is None:
             raise KeyError(f"Missing key 'model' in [{', '.join(sorted(values))}]")
         if "method" in values:
-            self._set_method(values["method"])
+            self.method = values["method"]
             del values["method"]
         for k in values:
             if not k.startswith("model__"):
@@ -171,9 +171,9 @@ class SkBaseTransformLearner(SkBaseTransform):
         d = len("model__")
         pars = {k[d:]: v for k, v in values.items()}
         self.model.set_params(**pars)
-        if "method" in values:
-            self.method = values["method"]
-            self._set_method(values["method"])
+        # binds the method to the current model
+        self._set_method(self.method)
+        return self
 
     #################
     # common methods
